@@ -67,6 +67,15 @@ func (x *Exec) call(st *State, e *ast.CallExpr) []Val {
 			return []Val{x.quantifier(st, e, fn.Name() == "forall")}
 		case "all", "elems":
 			x.fail("%s(...) is only meaningful in a modifies clause", fn.Name())
+		case "allocated":
+			// allocated(p): p is nil or an object that exists in the current state
+			v := x.expr(st, e.Args[0])
+			ref := v.T
+			if v.IsSlice() {
+				ref = v.Arr
+			}
+			now := x.heapGet(st, "alloc", SArr(SInt, SBool))
+			return []Val{{Typ: types.Typ[types.Bool], T: x.c.Or(x.c.Eq(ref, x.c.Int(0)), x.c.Select(now, embRoot(ref)))}}
 		case "fresh":
 			// fresh(p): p was allocated by this call (not allocated in the pre-state)
 			v := x.expr(st, e.Args[0])
@@ -120,6 +129,19 @@ func (x *Exec) call(st *State, e *ast.CallExpr) []Val {
 		return x.loggerCall(st, e, fn.Name())
 	}
 	if x.isSpecFunc(fn) {
+		if ucon := x.eng.prog.Contracts[key]; ucon != nil {
+			if err := x.eng.prog.Bind(ucon); err != nil {
+				panic(err)
+			}
+			if ucon.Uninterp {
+				var ts []*Term
+				for i, v := range x.evalArgs(st, e, sig) {
+					ts = append(ts, x.flattenArg(st, v, sig.Params().At(i).Type())...)
+				}
+				rt := sig.Results().At(0).Type()
+				return []Val{{Typ: rt, T: x.uninterp("uf_"+fn.Pkg().Name()+"_"+fn.Name()+"_"+x.mode, x.scalarSort(rt), ts...)}}
+			}
+		}
 		return []Val{x.specApp(st, fn, e)}
 	}
 	con := x.eng.prog.Contracts[key]
@@ -565,7 +587,7 @@ func (x *Exec) callContract(st *State, con *Contract, recv *Val, args []Val, e *
 			x.safety(st, "nil", "receiver of "+con.Key+" is non-nil", c.Neq(recv.T, c.Int(0)))
 		}
 	}
-	if con.Ints != x.mode && !x.specMode {
+	if con.Ints != x.mode && con.Ints != "both" && !x.specMode {
 		if why := x.eng.prog.modeDependent(con); why != "" {
 			x.fail("call from %s (%s mode) to %s (%s mode): the callee's contract is not mode-independent (%s)", x.key, x.mode, con.Key, con.Ints, why)
 		}
@@ -677,6 +699,27 @@ func (x *Exec) modLocations(pre *State, e ast.Expr) []modLoc {
 					t = p.Elem()
 				}
 				return x.objLocs(v.T, t)
+			case "ghostIO":
+				var out []modLoc
+				for _, g := range ghostIOComps {
+					out = append(out, modLoc{comp: g.name, sort: g.sort(x), whole: true})
+				}
+				return out
+			case "ghostFail":
+				return []modLoc{{comp: "ghost.iofail", sort: SBool, whole: true}}
+			case "ghostSpawn":
+				return []modLoc{{comp: "ghost.spawned", sort: SInt, whole: true}}
+			case "ghostClock":
+				return []modLoc{{comp: "ghost.now", sort: SInt, whole: true}}
+			case "ghostStream":
+				v := x.expr(pre, call.Args[0])
+				return []modLoc{{comp: "ghost.wdata", sort: SArr(SInt, SArr(x.idxSort(), x.byteSort())), ref: v.T}, {comp: "ghost.wlen", sort: SArr(SInt, x.idxSort()), ref: v.T}}
+			case "ghostReader":
+				v := x.expr(pre, call.Args[0])
+				return []modLoc{{comp: "ghost.rpos", sort: SArr(SInt, x.idxSort()), ref: v.T}, {comp: "ghost.rfile", sort: SArr(SInt, SInt), ref: v.T}}
+			case "ghostFilePos":
+				v := x.expr(pre, call.Args[0])
+				return []modLoc{{comp: "ghost.fpos", sort: SArr(SInt, x.idxSort()), ref: v.T}}
 			case "elems":
 				v := x.expr(pre, call.Args[0])
 				t := x.typeOf(call.Args[0])
@@ -831,7 +874,6 @@ func (x *Exec) inlineBody(st *State, info *types.Info, ft *ast.FuncType, body *a
 	st.defers = nil
 	end := x.block(st, body.List)
 	x.loops = savedLoops
-	x.retTarget = x.retTarget[:len(x.retTarget)-1]
 	if !x.dead(end) {
 		// fall off the end: results are the named results (or none)
 		var res []Val
@@ -848,6 +890,7 @@ func (x *Exec) inlineBody(st *State, info *types.Info, ft *ast.FuncType, body *a
 	for _, r := range frame.returns {
 		x.runDefers(r)
 	}
+	x.retTarget = x.retTarget[:len(x.retTarget)-1]
 	merged := x.mergeN(frame.returns)
 	x.inlineDepth--
 	x.info = savedInfo
@@ -905,11 +948,15 @@ func (x *Exec) runDefers(st *State) {
 }
 
 func (x *Exec) reloadResults(st *State, res []Val) []Val {
-	if len(x.retTarget) > 0 || x.resultObjs == nil {
+	robjs := x.resultObjs
+	if len(x.retTarget) > 0 {
+		robjs = x.retTarget[len(x.retTarget)-1].results
+	}
+	if robjs == nil {
 		return res
 	}
 	out := append([]Val{}, res...)
-	for i, rv := range x.resultObjs {
+	for i, rv := range robjs {
 		if rv != nil && i < len(out) {
 			if _, ok := st.vars[rv]; ok {
 				out[i] = x.load(st, x.varLV(st, rv))
@@ -1075,6 +1122,33 @@ func (x *Exec) scanModClause(ms *modSet, mc *Clause) {
 	e := ast.Unparen(mc.Expr)
 	if call, ok := e.(*ast.CallExpr); ok {
 		if id, ok := call.Fun.(*ast.Ident); ok {
+			switch id.Name {
+			case "ghostIO":
+				for _, g := range ghostIOComps {
+					ms.add(g.name, g.sort(x))
+				}
+				return
+			case "ghostFail":
+				ms.add("ghost.iofail", SBool)
+				return
+			case "ghostSpawn":
+				ms.add("ghost.spawned", SInt)
+				return
+			case "ghostClock":
+				ms.add("ghost.now", SInt)
+				return
+			case "ghostStream":
+				ms.add("ghost.wdata", SArr(SInt, SArr(x.idxSort(), x.byteSort())))
+				ms.add("ghost.wlen", SArr(SInt, x.idxSort()))
+				return
+			case "ghostReader":
+				ms.add("ghost.rpos", SArr(SInt, x.idxSort()))
+				ms.add("ghost.rfile", SArr(SInt, SInt))
+				return
+			case "ghostFilePos":
+				ms.add("ghost.fpos", SArr(SInt, x.idxSort()))
+				return
+			}
 			t := x.typeOf(call.Args[0])
 			switch id.Name {
 			case "all":
